@@ -29,13 +29,13 @@ func generalGraph(r *rand.Rand, idx int, maxN int, allowBig bool) (string, [][]s
 	case k <= 8:
 		g := gen.Coincidence(r)
 		if g.N > maxN {
-			g = gen.DAG(r, maxN, 0.3)
+			g = gen.DAG(r, maxN, 2.5/float64(maxN))
 		}
 		return g.Family, gen.Names(g)
 	default:
 		g := gen.Mixed(r, maxN)
 		if g.N > maxN+8 {
-			g = gen.DAG(r, maxN, 0.3)
+			g = gen.DAG(r, maxN, 2.5/float64(maxN))
 		}
 		return g.Family, gen.Names(g)
 	}
@@ -50,8 +50,9 @@ func init() {
 			"(<= 40 nodes, a few deep/wide/300-node ones for linear cells; <= 14 nodes for the network simplex positioner), a random size mode " +
 			"(none/fixed/map all/map some/map none/zeros), spacings in {0, small, default, medium, large}, thoroughness in {default,0,1,7,100}; " +
 			"non-trivial = >= 3 nodes and (cycle | parallel/antiparallel pair | self loop | >= 2 components | more edges than nodes-1)",
-		Budget:        20,
-		MinNontrivial: counts(2000, 30000),
+		Budget:           20,
+		DeathIsViolation: true,
+		MinNontrivial:    counts(2000, 30000),
 		Assumptions: []string{
 			"inputs are non-empty well-formed edge lists; sizes and spacings finite and >= 0",
 			"network simplex positioner cells are limited to <= 14 input nodes and sizes <= 64 (documented poor run time; X is a layer count)",
